@@ -6,12 +6,14 @@
 //          greater<int>/greater<>): for int keys it orders exactly like the std functor of the same name, and it keeps
 //          all oracle-side code out of the per-configuration templates (compile time).
 //
-// One source, eight translation units (registry passes -DC09_PART=0..7 so they compile in parallel):
-//   PART 0-2  static_set<int,N,Comp>                     N in {1,3,4}, Comp = less<int> | greater<int> | less<> (+ greater<> N=3)
-//   PART 3-5  flat_set<int, static_vector<int,N>, Comp>  same grid
-//   PART 6    flat_set over an inplace_vector-backed adapter
-//   PART 7    flat_set with a *stateful* comparator (two directions, so that swap / copy / move must carry the
-//             comparator along); flat_multiset construction from every container of <= 4 keys
+// One source, six translation units (registry passes -DC09_PART=0..5 so they compile in parallel):
+//   PART 0  static_set<int,N,Comp>                     N in {1,3,4}, Comp = less<int> | greater<int>
+//   PART 1  static_set<int,N,less<>> (transparent, heterogeneous lookups with long), static_set<int,3,greater<>>
+//   PART 2  flat_set<int, static_vector<int,N>, Comp>  N in {1,3,4}, Comp = less<int> | greater<int>
+//   PART 3  flat_set<int, static_vector<int,N>, less<>>, flat_set<int, static_vector<int,3>, greater<>>
+//   PART 4  flat_set over an inplace_vector-backed adapter
+//   PART 5  flat_set with a *stateful* comparator (two directions, so that swap / copy / move must carry the
+//           comparator along); flat_multiset construction from every container of <= 4 keys
 //
 // What is NOT part of the check on this tree (does not compile / declared but never defined / absent):
 //   static_set::equal_range (returns `iterator`, body returns a pair: hard error when instantiated), static_set insert
@@ -953,18 +955,14 @@ using greater_void = etl::greater<>;
 
 Config const configs[] = {
 #if C09_PART == 0
-    SS(1, less_int), SS(3, less_int), SS(4, less_int),
+    SS(1, less_int), SS(3, less_int), SS(4, less_int), SS(1, greater_int), SS(3, greater_int), SS(4, greater_int),
 #elif C09_PART == 1
-    SS(1, greater_int), SS(3, greater_int), SS(4, greater_int),
-#elif C09_PART == 2
     SS(1, less_void), SS(3, less_void), SS(4, less_void), SS(3, greater_void),
+#elif C09_PART == 2
+    FS(1, less_int), FS(3, less_int), FS(4, less_int), FS(1, greater_int), FS(3, greater_int), FS(4, greater_int),
 #elif C09_PART == 3
-    FS(1, less_int), FS(3, less_int), FS(4, less_int),
-#elif C09_PART == 4
-    FS(1, greater_int), FS(3, greater_int), FS(4, greater_int),
-#elif C09_PART == 5
     FS(1, less_void), FS(3, less_void), FS(4, less_void), FS(3, greater_void),
-#elif C09_PART == 6
+#elif C09_PART == 4
     FA(3, less_int), FA(4, greater_int), FA(3, less_void),
 #else
     FS(3, DirComp), FA(4, DirComp),
@@ -1159,6 +1157,10 @@ void enum_multisets(vf::Ctx& c)
 }
 
 } // namespace
+
+// Keep the resident set small: ASan's default 256 MB quarantine of freed blocks is far more than these harnesses need
+// (every case frees a few dozen small blocks); ASAN_OPTIONS set by bin/check still take precedence for the keys it sets.
+extern "C" char const* __asan_default_options() { return "quarantine_size_mb=16:thread_local_quarantine_size_kb=256"; }
 
 void vf_run(vf::Ctx& c)
 {
